@@ -78,8 +78,12 @@ def run_chunk(arg):
             r2 = w.batch(["info 1"] + c08.scan_all("r1", bufs) + ["rdestroy 1"])
             if r2[0] != ref["info"] or c08.obs(r2[1:-1]) != ref["obs"]:
                 out.append((it, "C17:%s-accepted:%s:behaves-differently" % (what, where if what == "truncation" else "field=" + field.split("[")[0]), dict(loaded_info=r2[0])))
+            elif what == "corruption" and field.startswith("offset"):
+                # reference model of the table: every buffer starts where the previous one ends (first one right after the table), so ANY
+                # other value of an offset field is an inconsistent table and must be rejected, whatever the loaded rules do afterwards
+                out.append((it, "C17:corruption-accepted:field=offset:table-inconsistent-but-loaded", dict(field=field, value=valname)))
             else:
-                out.append((it, None, "accepted-equivalent"))
+                out.append((it, None, "accepted-equivalent:" + (where if what == "truncation" else "field=" + field.split("[")[0])))
         except (yv.WorkerDied, yv.WorkerHang) as e:
             err = getattr(e, "err", "")
             yv.drop_worker(VAR); w = fresh()
@@ -128,6 +132,7 @@ def main():
         # field corruptions
         def vals(orig, width):
             vs = {0, 1, orig + 1, max(0, orig - 1), orig + 8, max(0, orig - 8), 0x7fffffff, 0xffffffff, n, n + 1, max(0, n - 1)}
+            if width == 8: vs.update({(1 << 64) - 1, (1 << 63), (1 << 64) - 8, (1 << 32), orig + (1 << 32)})
             vs.discard(orig)
             return sorted(v for v in vs if v < (1 << (8 * width)))
         for i in range(4):
@@ -144,11 +149,14 @@ def main():
             jobs.append((label, srcs, ext, ref, ch))
     yv.drop_worker(VAR)
     stats = dict(rejected=0, accepted_equivalent=0)
+    acc = {}
     distinct = 0
     for (label, res) in yv.pmap(run_chunk, jobs, ck, prebuild=(VAR,)):
         for (it, sig, det) in res:
             ck.cov["evaluations"] += 1; distinct += 1
             if sig is None:
+                if det.startswith("accepted-equivalent:"):
+                    acc[det.split(":", 1)[1]] = acc.get(det.split(":", 1)[1], 0) + 1; det = "accepted-equivalent"
                 stats[det.replace("-", "_")] += 1
                 if det == "accepted-equivalent" and stats["accepted_equivalent"] < 3:
                     ck.sample(dict(rule_set=label, case=list(it), outcome="load succeeded and the rules behave like the intact ones"))
@@ -157,11 +165,12 @@ def main():
             ck.violation(sig, d)
     ck.cov["distinct_nontrivial"] = distinct
     ck.cov["outcomes"] = stats
+    ck.cov["accepted_equivalent_by_place"] = acc
     ck.cov["images"] = cover
     ck.sample(dict(rule_set=cover[1]["rule_set"], image_bytes=cover[1]["image_bytes"], prefixes_loaded=cover[1]["prefixes"]))
     ck.cov["rule"] = ("a case = one load attempt of a truncated prefix (stream whole / stream in 7-byte chunks / real file) or of an image with one header or "
                       "buffer-table field replaced by a boundary value; %d images; small images are cut at every byte; every case is distinct" % len(cover))
-    ck.assumptions += ["an accepted corruption of a field the loader ignores (buffer offsets) is not an alarm as long as the rules behave like the intact ones"]
+    ck.assumptions += ["buffer offsets are checked against the reference layout (any accepted change is a violation); an accepted change of a SIZE field or a cut is an alarm only if the loaded rules differ from the intact ones or crash (the format has no redundancy that would let a reference decide more; see the known finding on the uncounted relocation list)"]
     ck.finish()
 
 
